@@ -479,6 +479,12 @@ def _r11_345(ctx, P):
     case("2 inputs", "(X:center),(X:left)->(X:center)", [(AXs,), (AXs,)],
          lambda: (make_da("da", [Sym("t"), dX("center")]), make_da("db", [dX("left"), Sym("t")])), {"X": (1, 1)},
          [[dX("center")], [dX("left")]], [[dX("center")]], {AXs: (1, 1)})
+    # every argument has its own order of core dimensions: the user function receives each array as *its* entry of the signature says
+    case("2 inputs listing the same axes in different order", "(X:center,Y:center),(Y:left,X:center)->(X:center,Y:center)", [(AXs, AYs), (AYs, AXs)],
+         lambda: (make_da("da", [Sym("t"), dX("center"), dY("center")]), make_da("db", [Sym("t"), dX("center"), dY("left")])), {"X": (1, 0), "Y": (0, 2)},
+         [[dX("center"), dY("center")], [dY("left"), dX("center")]], [[dX("center"), dY("center")]], {AXs: (1, 0), AYs: (0, 2)})
+    case("output listing the axes in another order than the input", "(X:center,Y:center)->(Y:left,X:center)", [(AXs, AYs)], one(), {"X": (0, 0), "Y": (1, 0)},
+         [[dX("center"), dY("center")]], [[dY("left"), dX("center")]], {AXs: (0, 0), AYs: (1, 0)})
     case("2 outputs", "(X:center)->(X:left),(X:right)", [(AXs,)], one(), {"X": (1, 1)}, [[dX("center")]], [[dX("left")], [dX("right")]], {AXs: (1, 1)}, n_out=2)
     case("no boundary_width", "(X:center,Y:center)->(X:center,Y:center)", [(AXs, AYs)], one(), None, [[dX("center"), dY("center")]], [[dX("center"), dY("center")]], {AXs: (0, 0), AYs: (0, 0)})
     case("pad after the function", "(X:center)->(X:outer)", [(AXs,)], one(), {"X": (1, 0)}, [[dX("center")]], [[dX("outer")]], {AXs: (1, 0)}, pad_before=False)
